@@ -7,7 +7,9 @@ SOURCES = ['c01', 'c02', 'c08', 'c11', 'c12', 'c13', 'c06', 'c07', 'c15', 'c17',
            'c16', 'c18', 'c19']
 RULE = ("the union of all other properties' generators (each contributes a share of its histories, so every mutating and "
         "map-producing API call modelled so far occurs) plus a malformed stream (duplicate pixels, length and type "
-        "mismatches, illegal operations, out-of-range pixels, oversized bit positions); a `state` export follows every "
+        "mismatches, illegal operations, out-of-range pixels, oversized bit positions, and 26 further kinds of refused "
+        "call: wrong value / index types, ranges with array values or RING ordering, operators with illegal "
+        "operands, degrade with illegal arguments); a `state` export follows every "
         "call on every map it touches: the REAL coverage index and storage arrays are checked by the Lean-verified "
         "`checkInv` (theorem C04.checkInv_iff) and the Lean `abs` of the real arrays must equal the real read path; "
         "non-trivial = a state with at least two blocks, or reached through a call that raised")
@@ -44,8 +46,11 @@ def malformed(rng):
     focus = rng.sample(range(c.ncov), min(c.ncov, 3))
     h = [c.line(), 'state %s' % c.name]
     for _ in range(rng.randint(4, 10)):
-        if rng.random() < 0.5:
+        r = rng.random()
+        if r < 0.35:
             h.append(gen.bad_upd_line(rng, c))
+        elif r < 0.6:
+            h.append(gen.refused_line(rng, c))
         else:
             h.append(gen.upd_line(rng, c, focus=focus))
         h.append('state %s' % c.name)
